@@ -17,8 +17,14 @@ func (e *Exec) readCell(st *State, ref string, t types.Type) Val {
 	case KInt:
 		return vInt(e.sel(st, "CELL_Int", "Int", ref)).withT(t)
 	case KRef:
-		d := e.S.Define("ld", "Int", e.sel(st, "CELL_Int", "Int", ref))
+		selT := e.sel(st, "CELL_Int", "Int", ref)
+		if c, ok := e.ldCache[selT]; ok {
+			return vRef(c).withT(t)
+		}
+		d := e.S.Define("ld", "Int", selT)
+		e.ldCache[selT] = d
 		e.S.Assert(sx("<=", d, st.top))
+		e.ptrTypeFact(d, t)
 		return vRef(d).withT(t)
 	case KBool:
 		return vBool(e.sel(st, "CELL_Bool", "Bool", ref)).withT(t)
@@ -414,6 +420,22 @@ func (e *Exec) assumeZero(st *State, name string, ft types.Type, idx string) {
 func (e *Exec) execUnOp(fr *Frame, st *State, x *ssa.UnOp) bool {
 	switch x.Op {
 	case token.MUL: // load
+		if fv, isFV := x.X.(*ssa.FreeVar); isFV && fr.top && !storedTo(fr.fn, fv) {
+			// a captured variable that this closure never assigns: one value for the whole body
+			if v, ok := e.fvDeref[fv]; ok {
+				fr.vals[x] = v
+				return true
+			}
+			pv := e.val(fr, x.X, st)
+			pt := x.X.Type().Underlying().(*types.Pointer)
+			if _, isStruct := pt.Elem().Underlying().(*types.Struct); !isStruct || isOpaqueStruct(pt.Elem()) {
+				v := e.readCell(st, pv.t(), pt.Elem())
+				v = e.nameVal("fv_"+fv.Name()+"_val", v, pt.Elem())
+				e.fvDeref[fv] = v
+				fr.vals[x] = v
+				return true
+			}
+		}
 		if _, ok := fr.addrs[x.X]; !ok {
 			if _, isG := x.X.(*ssa.Global); !isG {
 				// pointer value
@@ -789,4 +811,15 @@ func lastSeg(s string) string {
 		return s[i+1:]
 	}
 	return s
+}
+
+func storedTo(fn *ssa.Function, fv *ssa.FreeVar) bool {
+	for _, b := range fn.Blocks {
+		for _, in := range b.Instrs {
+			if st, ok := in.(*ssa.Store); ok && st.Addr == fv {
+				return true
+			}
+		}
+	}
+	return false
 }
